@@ -326,6 +326,18 @@ func (e *Enc) eval(sx *Sx, env *evalEnv) tv {
 			}
 		}
 		return tv{Val{e.heapGet(env.heap, key, srt), "(Array Ref " + srt + ")"}, nil}
+	case "consumed":
+		x := e.eval(args[0], env)
+		t := app("select", e.heapGet(env.heap, "$consumed", "Int"), x.v.T)
+		if len(env.bound) == 0 {
+			// assumed: no reader ever delivers 2^62 bytes
+			e.assert(and(app("<=", "0", t), app("<=", t, "4611686018427387904")))
+			e.trustedUsed["assumed: an io.Reader delivers fewer than 2^62 bytes in total (ghost byte counter stays in int64 range)"] = true
+		}
+		return tv{Val{t, "Int"}, nil}
+	case "limit":
+		x := e.eval(args[0], env)
+		return tv{Val{app("select", e.heapGet(env.heap, "$limit", "Int"), x.v.T), "Int"}, nil}
 	case "sblen":
 		x := e.eval(args[0], env)
 		return tv{Val{app("select", e.heapGet(env.heap, "$sb", "Int"), x.v.T), "Int"}, nil}
